@@ -162,6 +162,9 @@ type FnCtx struct {
 	retCount int
 	closureOf map[*ssa.Alloc]*ssa.MakeClosure
 	firstIter []string
+	ensuresAtSeen map[string]bool
+	refineHyp string
+	refineOf  *FuncContract
 	vacuity   []*vacuityCheck
 	ghostAt   []ghostClause
 	lastLine  int
